@@ -1,0 +1,15 @@
+//go:build verif
+
+// Contracts for package tooling (comment-only; read by /verif/vcgo, build tag verif).
+package tooling
+
+// The bodies of these two functions are entirely calls into third-party code (klauspost/compress/zstd through
+// mostynb/zstdpool-freelist), so they are trusted: results arbitrary, nothing reachable from the caller is written.
+
+//@ func CompressZstd
+//@   mode int
+//@   trusted
+
+//@ func DecompressZstd
+//@   mode int
+//@   trusted
